@@ -1713,6 +1713,67 @@ Proof. vm_compute. reflexivity. Qed.
 Example eval_mech_eq_spec_hyp_satisfiable : known_class ex_hier = false.
 Proof. vm_compute. reflexivity. Qed.
 
+(* Object is the implicit root of every ancestry: DeclareClass pre-fills the new table with Object's entries
+   (ObjClass::new(.., Some(object_class), {})) and Inherit OVERWRITES them with the superclass's (insert, not
+   or_insert).  A user class that overrides a method Object defines (`derives`) therefore wins for itself and for all
+   its descendants, although every table already contained Object's native entry when Inherit ran. *)
+Definition ex_object_override : list cdef :=
+  [object_def; mkDef "Shape" None [("derives", false, MClosure 0)]; mkDef "Polygon" (Some 1) [("via_self", false, MClosure 1)];
+   mkDef "Square" (Some 2) []; mkDef "Circle" None []].
+
+Example object_method_override_wins :
+  wf_hist ex_object_override /\
+  match build ex_object_override with
+  | Ok cs => map (fun cm => tbl_get "derives" (methods (fst cm))) (classes cs)
+  | _ => []
+  end = [Some (MNative NDerives); Some (MClosure 0); Some (MClosure 0); Some (MClosure 0); Some (MNative NDerives)] /\
+  map (fun c => lookupS ex_object_override c "derives") [0; 1; 2; 3; 4]
+  = [Some (MNative NDerives); Some (MClosure 0); Some (MClosure 0); Some (MClosure 0); Some (MNative NDerives)].
+Proof.
+  split; [|split; vm_compute; reflexivity].
+  split; [reflexivity|]. intros i d s Hi Hs.
+  destruct i as [|[|[|[|[|i]]]]]; simpl in Hi; try (destruct i; discriminate);
+    injection Hi as <-; simpl in Hs; try discriminate; injection Hs as <-; lia.
+Qed.
+
+(* the general statement: whatever Object defines, the nearest user definition in the declared ancestry is what the
+   copy-down table holds (a consequence of copydown_eq_chainwalk; Object is the LAST element of every ancestry) *)
+Corollary user_override_of_object_method_wins : forall h cs i c m n a st mr,
+  wf_hist h -> build h = Ok cs -> nth_error (classes cs) i = Some (c, m) ->
+  In a (ancestry h i) -> a <> 0 -> own h a n = Some (st, mr) ->
+  (forall b, In b (ancestry h i) -> b <> a -> b <> 0 -> own h b n = None) ->
+  tbl_get n (methods c) = Some mr.
+Proof.
+  intros h cs i c m n a st mr Hwf Hb Hi Ha Ha0 Hown Hothers.
+  destruct (table_lookup_is_nearest_definition h cs i c m n Hwf Hb Hi) as [E _]. rewrite E. clear E.
+  assert (Hle : forall x, In x (ancestry h i) -> x <= i) by (apply ancestry_le; auto).
+  (* 0 can only be the last element: every other element's lookup is None or the hit *)
+  assert (Hsorted : forall l, (forall x, In x l -> x = a \/ x = 0 \/ own h x n = None) -> In a l ->
+            (forall l1 l2, l = (l1 ++ 0 :: l2)%list -> ~ In a l2) ->
+            option_map snd (first_some (fun x => own h x n) l) = Some mr).
+  { induction l as [|x r IH]; intros Hall Hin Hz; [contradiction|]. simpl.
+    destruct (Nat.eq_dec x a) as [->|Hne].
+    - rewrite Hown. reflexivity.
+    - destruct Hin as [->|Hin]; [contradiction|].
+      destruct (Hall x (or_introl eq_refl)) as [->|[->|Hn]]; [contradiction| |].
+      + exfalso. apply (Hz [] r eq_refl). exact Hin.
+      + rewrite Hn. apply IH; auto.
+        * intros y Hy. apply Hall. right; auto.
+        * intros l1 l2 E. apply (Hz (x :: l1) l2). simpl. rewrite E. reflexivity. }
+  apply Hsorted; auto.
+  - intros x Hx. destruct (Nat.eq_dec x a); auto. destruct (Nat.eq_dec x 0); auto.
+  - (* after Object nothing follows in an ancestry *)
+    intros l1 l2 E Hin.
+    assert (Hdec : forall c0 l1 l2, ancestry h c0 = (l1 ++ 0 :: l2)%list -> l2 = []).
+    { induction c0 as [c0 IHc] using lt_wf_ind. intros k1 k2 Ek. rewrite ancestry_unfold in Ek by auto.
+      destruct k1 as [|y k1]; simpl in Ek.
+      - injection Ek as Hc0 Hrest. subst c0. destruct Hwf as [Hobj _]. rewrite Hobj in Hrest. simpl in Hrest. auto.
+      - injection Ek as Hy Hrest. destruct (nth_error h c0) as [d|] eqn:Hd; [|destruct k1; discriminate].
+        destruct (declared_super c0 d) as [s|] eqn:Hs; [|destruct k1; discriminate].
+        eapply (IHc s); [eapply declared_super_lt; eauto|exact Hrest]. }
+    rewrite (Hdec i l1 l2 E) in Hin. contradiction.
+Qed.
+
 Print Assumptions copydown_eq_chainwalk.
 Print Assumptions invoke_eq_get_then_call.
 Print Assumptions bound_method_keeps_receiver.
@@ -1725,4 +1786,5 @@ Print Assumptions class_errors_table.
 Print Assumptions sem_ops_agree.
 Print Assumptions exec_class_inv.
 Print Assumptions eval_mech_eq_spec.
+Print Assumptions user_override_of_object_method_wins.
 Print Assumptions eval_mech_eq_spec_refuted_in_known_class.
